@@ -30,6 +30,9 @@ import (
 
 type refFn func(args []tengo.Object) (tengo.Object, bool) // ok=false: outside the domain, do not compare
 
+// mustFail: the reference's way of saying "this call is a run-time error, not a value"
+var mustFail = &tengo.Error{Value: &tengo.String{Value: "__the call must fail with a run-time error__"}}
+
 func reErr(err error) tengo.Object { return &tengo.Error{Value: &tengo.String{Value: err.Error()}} }
 
 func strs(l []string) tengo.Object {
@@ -183,10 +186,20 @@ var refTable = map[string]interface{}{
 		if len(a) > 2 {
 			hi = argI(a[2])
 		}
-		if lo < 0 || hi > len(s) || lo > hi {
-			return nil, false
+		if lo > hi {
+			return mustFail, true // lower beyond upper (also an omitted upper = len(s)) is rejected with a run-time error
 		}
-		return &tengo.String{Value: s[lo:hi]}, true
+		// out-of-range bounds are clamped to the string
+		clamp := func(n int) int {
+			if n < 0 {
+				return 0
+			}
+			if n > len(s) {
+				return len(s)
+			}
+			return n
+		}
+		return &tengo.String{Value: s[clamp(lo):clamp(hi)]}, true
 	}),
 	"text.split": strings.Split, "text.split_after": strings.SplitAfter, "text.split_after_n": strings.SplitAfterN, "text.split_n": strings.SplitN,
 	"text.title": strings.Title, "text.to_lower": strings.ToLower, "text.to_title": strings.ToTitle, "text.to_upper": strings.ToUpper,
@@ -429,7 +442,7 @@ var canonical = map[string]tengo.Object{"text": &tengo.String{Value: "abc"}, "in
 	"strarray": &tengo.Array{Value: []tengo.Object{&tengo.String{Value: "a"}, &tengo.String{Value: "b"}}}}
 
 var fPool = []float64{0, math.Copysign(0, -1), 1, -1, 0.5, 2.5, -2.5, 10, 100, 1e-9, 1e300, -1e300, math.Pi, math.E, math.NaN(), math.Inf(1), math.Inf(-1), 0.1, 3, 1e15, 123.456}
-var tPool = []time.Time{time.Unix(0, 0), time.Unix(1500000000, 123456789), time.Date(2020, 2, 29, 23, 59, 59, 999999999, time.UTC), {}, time.Date(1969, 12, 31, 0, 0, 0, 0, time.FixedZone("X", -3600)), time.Unix(-1, 0)}
+var tPool = []time.Time{time.Time{}.In(time.FixedZone("Z1", 3600)), time.Time{}.In(time.FixedZone("Z2", -7200)), time.Unix(0, 0), time.Unix(1500000000, 123456789), time.Date(2020, 2, 29, 23, 59, 59, 999999999, time.UTC), {}, time.Date(1969, 12, 31, 0, 0, 0, 0, time.FixedZone("X", -3600)), time.Unix(-1, 0)}
 
 func drawRT(rt string, rng *rand.Rand, fn string, stringPos bool) tengo.Object {
 	switch rt {
@@ -639,6 +652,14 @@ func init() {
 				}
 				if c.Expect == "value" && got != "value" && haveRef && !inDomain {
 					stats["outside_domain"]++
+					return
+				}
+				if haveRef && inDomain && want == tengo.Object(mustFail) {
+					if strings.HasPrefix(got, "error:") {
+						stats["class:must-fail"]++
+					} else {
+						add(libMismatch{Key: "accepted:" + name, What: fmt.Sprintf("%s%s returned %v where the call must be rejected with a run-time error", name, showArgs(a), ret), Fn: name, Args: encArgs(a)})
+					}
 					return
 				}
 				if c.Expect == "value" && limit && haveRef && inDomain {
